@@ -103,6 +103,8 @@ def obligations(ctx):
             ad = VM.deref(E_, a[3])
             E_.trace.append(("add_utxo", E_.concretize(u.fields[0].t) if isinstance(u, VStruct) else repr(u), ad.path if isinstance(ad, VLazy) else repr(ad)))
             return VEnum("Result", "Ok", [UNIT])
+        ad = VM.deref(E_, a[1])
+        E_.trace.append(("new_output", ad.path if isinstance(ad, VLazy) else repr(ad)))
         return UNIT
     E.extra_intrinsics[r"TxProposal::(add_new_output|add_utxo)$"] = prop_mut
     E.extra_intrinsics[r"HashSet::<.*>::new$"] = lambda E_, c, a: VSeq([], "set")
@@ -148,6 +150,10 @@ def obligations(ctx):
                 npure += 1
                 if rep != added:
                     ob2.violation("pure-ADA extension: UTxOs %s are added to the proposal, UTxOs %s are reported as taken (and leave the free list)" % (added, rep))
+                # pay only the target address: an output opened by the step is addressed to the target
+                for t in o.trace:
+                    if t[0] == "new_output" and t[1] != "target":
+                        ob2.violation("pure-ADA extension: a new output is opened for %s instead of the target address" % t[1])
                 # one signature per distinct owning key: every UTxO enters the witness count under ITS OWNER's address
                 for t in o.trace:
                     if t[0] == "add_utxo" and t[2] != "address_of_utxo_%s" % t[1]:
